@@ -108,6 +108,14 @@ def one(ctx, rng, xr):
         A.append(E)
     A = np.array(A).reshape(tuple(sizes) + (nf, len(th)))
     da = gen.make_da(A, f, th, names, sizes, dtype=edt)
+    if dmeta["full"] and len(th) > 2 and rng.random() < 0.35:
+        # the same labelled spectra stored in WW3 order (descending, wrapping inside the axis), rolled or descending
+        how = str(rng.choice(["rolled", "descending", "ww3"]))
+        if how in ("descending", "ww3"):
+            da = da.isel(dir=slice(None, None, -1))
+        if how in ("rolled", "ww3"):
+            da = da.roll(dir=int(rng.integers(1, len(th))), roll_coords=True)
+        th = da.dir.values.astype("float64")
     Ein = da.values.astype("float64").reshape(npos, nf, len(th))
     f64 = da.freq.values.astype("float64")
     f32 = da.freq.values.astype("float32").astype("float64")   # the peak ufuncs document float32 freq
